@@ -1444,13 +1444,15 @@ func (w *world) runAll() (cases []lib.Case) {
 	w.signVerifyCases(signed)
 	w.keyCases()
 	w.matchProductsCases(final)
-	switch cfg.Index % 3 {
+	switch cfg.Index % 4 {
 	case 0:
 		w.commandArgumentCases()
 	case 1:
 		w.flagDefaultCases()
-	default:
+	case 2:
 		w.errorPathCases(signed)
+	default:
+		w.artifactNameCases()
 	}
 	return w.cases
 }
